@@ -426,3 +426,39 @@ Print Assumptions C19_reexp_C10_heap_init_ok.
 Theorem C19_augment_scan_nonempty_refuted : ltac:(let t := type of Centro.Props.C01.C01_inf_sentinel_refuted in exact t).
 Proof. exact Centro.Props.C01.C01_inf_sentinel_refuted. Qed.
 Print Assumptions C19_augment_scan_nonempty_refuted.
+
+(* ================================================================== round 6: input bounds under which the
+   index-safety theorems speak about the COMPILED code (narrow C types), and the known findings beyond them *)
+From Centro Require Model.HullW Proofs.HullWrap Props.C07.
+
+(* C19_convex_hull_write_bound above is about C02's EXACT model.  The compiled kernel evaluates the turn
+   test in a C int; inside coordinates <= M with M*M < 2^31 (M <= 46340) the as-written per-label kernel
+   equals the exact one (C02_wrap_transfer), so the write bound holds for the compiled arithmetic: *)
+Theorem C19_convex_hull_label_write_bound_as_written : forall M m pts slack, M * M < 2147483648 ->
+  (forall q, In q pts -> HullWrap.inbox M q) -> HullCorrect.label_ok m pts -> 0 <= slack ->
+  Hull.zlen (HullW.hull_label_w m pts slack) <= slack + Hull.zlen pts.
+Proof. exact HullC19Safe.hull_label_write_bound_as_written. Qed.
+Print Assumptions C19_convex_hull_label_write_bound_as_written.
+
+Theorem C19_reexp_C02_wrap_transfer : ltac:(let t := type of Centro.Props.C02.C02_wrap_transfer in exact t).
+Proof. exact Centro.Props.C02.C02_wrap_transfer. Qed.
+Print Assumptions C19_reexp_C02_wrap_transfer.
+
+(* beyond the bound (known finding F22): the as-written turn test wraps; the memory consequence — a
+   repeated vertex overruns the label's rows by one, past the buffer for the last label — is observed
+   by the ASan stream and attributed by C02's as-written model *)
+Theorem C19_reexp_C02_convex_wrap_refuted : ltac:(let t := type of Centro.Props.C02.C02_convex_wrap_refuted in exact t).
+Proof. exact Centro.Props.C02.C02_convex_wrap_refuted. Qed.
+Print Assumptions C19_reexp_C02_convex_wrap_refuted.
+
+(* median_filter: C19_median_model_safe / _pre_indices / _pixel_offset speak about the real scratch block
+   exactly when stripe_length = columns + 2*radius + 1 < 1573248: below it the 32-bit `unsigned int
+   memory_size` of allocate_histograms is the exact size and covers everything the kernel touches *)
+Theorem C19_reexp_C07_alloc_size_exact_below : ltac:(let t := type of Centro.Props.C07.C07_alloc_size_exact_below in exact t).
+Proof. exact Centro.Props.C07.C07_alloc_size_exact_below. Qed.
+Print Assumptions C19_reexp_C07_alloc_size_exact_below.
+
+(* from that width on (known finding F23) the size wraps: 1 x 1573243, radius 2 gets malloc(600) *)
+Theorem C19_reexp_C07_alloc_size_wrap_refuted : ltac:(let t := type of Centro.Props.C07.C07_alloc_size_wrap_refuted in exact t).
+Proof. exact Centro.Props.C07.C07_alloc_size_wrap_refuted. Qed.
+Print Assumptions C19_reexp_C07_alloc_size_wrap_refuted.
